@@ -43,6 +43,8 @@ def gen_script(rng):
         refid = cfg if (cfg >= 0 and rng.random() < 0.5) else (near_miss(rng, cfg) if (cfg >= 0 and rng.random() < 0.6) else rng.randrange(2 ** 31))
         phc = rng.choice([-1, -1, 0, 12345, rng.randrange(10 ** 6), rng.choice([99999999, 100000000, 250000000, 123456789012, 2 ** 62, rng.randrange(10 ** 8, 10 ** 13)])])
         tag = rng.randrange(1, 60000)
+        if rng.random() < 0.35:
+            tag = tag // 4 * 4 + 3          # chronyd repeats one reference time in these replies (see harness/src/poller.rs)
         if mode != 1 and rng.random() < 0.7:
             # aim the evaluation instant at the 5 s boundary of the grace period
             target = last_good + GRACE + rng.choice([-1, 0, 1, -1000, 1000])
@@ -54,6 +56,13 @@ def gen_script(rng):
         if mode == 1:
             last_good = t + d
         t = t + d + e + rng.choice([NS, NS + rng.randrange(NS), 2 * NS, 6 * NS])
+    if cfg >= 0 and rng.random() < 0.4:
+        # chronyd repeats one reference time over several polls (no new measurement) while the PHC
+        # driver's error bound moves: every poll must forward the number the file holds now
+        for _ in range(rng.randrange(2, 5)):
+            phc = rng.choice([0, 1000, 250000, rng.randrange(1, 10 ** 6)])
+            steps.append((t, 1, rng.choice([0, 1000]), 0, phc, cfg, rng.randrange(1, 15000) * 4 + 3))
+            t += NS + rng.randrange(NS)
     return start, cfg, steps
 
 
